@@ -264,6 +264,28 @@ def sample(c):
     return out
 
 
+def _cf(opts, kind="fixed", raw=None):
+    return {"op": "cfg", "cfg": {"kind": kind, "ini": raw if raw is not None else gen.render_ini(opts), "opts": opts}}
+
+
+_LONG = {"op": "call", "kind": "e", "path": b"/bin/long", "argv": [b"a" * 600]}
+_SHORT = {"op": "call", "kind": "v", "path": b"/bin/s", "argv": [b"s"]}
+FIXED = [
+    # scalar options set by one call and gone in the next (non-thread-safe build keeps its configuration structure)
+    {"steps": [_cf([(b"datasource_message_max_length", b"255"), (b"log_message_max_length", b"300")]), _LONG, _cf([]), _LONG, _SHORT]},
+    {"steps": [_cf([(b"syslog_facility", b"LOCAL3"), (b"syslog_level", b"DEBUG"), (b"error_logging", b"yes")]), _SHORT,
+               {"op": "cfg", "cfg": {"kind": "absent", "ini": None, "opts": []}}, _SHORT, _LONG]},
+    # the same, set by a file that also contains a syntax error
+    {"steps": [_cf([], raw=b"[snoopy]\ndatasource_message_max_length = 300\nthis line has no separator\n"), _LONG, _cf([]), _LONG]},
+    # error under error_logging off, then on (and a decreasing limit)
+    {"steps": [_cf([(b"log_message_max_length", b"255")]), _LONG, _cf([(b"log_message_max_length", b"255"), (b"error_logging", b"yes")]), _LONG,
+               _cf([]), _LONG, _cf([(b"log_message_max_length", b"300")]), _LONG]},
+    # file output twice in one process, duplicate output lines, unknown output name
+    {"steps": [_cf([(b"output", b"file:@OUT@/log")]), _SHORT, _SHORT, _cf([(b"output", b"file:@OUT@/log"), (b"output", b"devnull")]), _SHORT,
+               _cf([(b"output", b"flie:@OUT@/log")]), _SHORT, _SHORT, _SHORT]},
+]
+
+
 def main():
     ctx = Ctx(PID, "exploration", RULE)
     bs = ctx.run.build_many(["ts-asan", "nts-asan", "ts-plain", "nts-plain"])
@@ -272,7 +294,7 @@ def main():
                        "driver (everything except pid, tid, tid_kernel, timestamp*, datetime); the pid in the devlog prefix is normalised",
                        "heap: in the last two of three identical trailing calls the library must hold nothing at real-exec entry and after return (plain -O2 builds, mallinfo2, tcache off)"]
     nw, per = (4, 150) if ctx.quick else (16, 1500)
-    pbt.run(ctx, builds, strategy, evaluate, classify, nw, per, sample=sample)
+    pbt.run(ctx, builds, strategy, evaluate, classify, nw, per, sample=sample, fixed_cases=FIXED)
     ctx.finish()
 
 
